@@ -75,4 +75,30 @@ def c17() -> int:
     return c.finish()
 
 
-CHECKS = {"C17": c17, "C02": c02, "C03": c03, "C07": c07}
+def c04() -> int:
+    from .enum_energy import c04_enum
+
+    c = Check("C04", "bounded exhaustive operation sequences through the real mechatronics vs a ledger oracle (ENUM) + per-transition energy monitor in FSX")
+    c.assumptions += ["ENUM: alphabet and depth listed in coverage.rule", "FSX: world W-res/energy with one BEV with idle draw, one small-battery BEV and one ICE vehicle"]
+    c04_enum(c)
+    quick = tier() == "quick"
+    needs = ["c04:moved:ICE", "c04:moved:BEV", "c04:charged:BEV:ChargingStation", "c04:charged:BEV:ChargingBase", "c04:charged:ICE:ChargingStation",
+             "c04:idled:BEV:Idle", "c04:idled:ICE:Idle", "c04:idled:BEV:ChargeQueueing", "c04:ran_dry:BEV:DispatchStation|c04:ran_dry:BEV:DispatchBase|c04:ran_dry:BEV:Repositioning"]
+    fsx(c, RES + ({"variant": "core", "gas": True, "mechs": ("thirsty", "tiny_thirsty", "ice"), "name": "W-res/energy"},),
+        ("hivemc.bundles", "c04", {}), K=2 if quick else 3, H=7 if quick else 9, needs=needs)
+    return c.finish()
+
+
+def c13() -> int:
+    from .enum_routes import c13 as run
+
+    return run()
+
+
+def c14() -> int:
+    from .enum_routes import c14 as run
+
+    return run()
+
+
+CHECKS = {"C04": c04, "C13": c13, "C14": c14, "C17": c17, "C02": c02, "C03": c03, "C07": c07}
